@@ -104,3 +104,43 @@ def evolve(omega: np.ndarray, delta: np.ndarray, phi: np.ndarray, U_of_t, target
         rho = vec.reshape(D, D)
         record(t1)
     return out
+
+
+def survival(omega: np.ndarray, delta: np.ndarray, phi: np.ndarray, U_of_t, target_times: list[float], ops: list[np.ndarray], d: int) -> list[tuple[float, float]]:
+    """Squared norm of the no-jump evolution under H_eff = H - (i/2) sum_k L_k^dagger L_k from |g...g>, at every target
+    time: the probability that no quantum jump has happened yet.  It is the same deterministic function of time for every
+    trajectory up to its first jump.  `ops` are the single-site jump operators *the emulator itself jumps with* (basis
+    g, r[, x]): a master equation has many equivalent sets of collapse operators with different no-jump decays, so the
+    only thing that can be demanded is that damping and jumps use the same set."""
+    nsteps, n = omega.shape
+    D = d**n
+    nloc = np.zeros((d, d), dtype=complex)
+    nloc[1, 1] = 1.0
+    sx = np.zeros((d, d), dtype=complex)
+    sx[0, 1] = sx[1, 0] = 0.5
+    sy = np.zeros((d, d), dtype=complex)
+    sy[0, 1], sy[1, 0] = -0.5j, 0.5j
+    N = [_site(nloc, i, n, d) for i in range(n)]
+    SX = [_site(sx, i, n, d) for i in range(n)]
+    SY = [_site(sy, i, n, d) for i in range(n)]
+    damp = np.zeros((D, D), dtype=complex)
+    for L in ops:
+        for i in range(n):
+            Li = _site(np.asarray(L, dtype=complex), i, n, d)
+            damp += Li.conj().T @ Li
+    psi = np.zeros(D, dtype=complex)
+    psi[0] = 1.0
+    out = [(float(target_times[0]), 1.0)]
+    for k in range(nsteps):
+        t0, t1 = target_times[k], target_times[k + 1]
+        U = np.asarray(U_of_t(0.5 * (t0 + t1)), dtype=float)
+        H = np.zeros((D, D), dtype=complex)
+        for j in range(n):
+            H += omega[k, j] * (math.cos(phi[k, j]) * SX[j] + math.sin(phi[k, j]) * SY[j]) - delta[k, j] * N[j]
+        for i in range(n):
+            for j in range(i + 1, n):
+                if U[i, j] != 0.0:
+                    H += U[i, j] * (N[i] @ N[j])
+        psi = expm(-1j * (H - 0.5j * damp) * ((t1 - t0) * 1e-3)) @ psi
+        out.append((float(t1), float(np.real(np.vdot(psi, psi)))))
+    return out
